@@ -24,7 +24,7 @@ fn qn(prefix: Option<&str>, local: &str) -> String {
 
 // accept <text>: outcome class of XmlDocument::from_raw:  ok | rest | err
 pub fn accept(args: &[String]) -> String {
-    let text = args.first().cloned().unwrap_or_default();
+    let text = args.last().cloned().unwrap_or_default();
     match XmlDocument::from_raw(&text) {
         Ok((rest, _)) => {
             if rest.is_empty() {
@@ -227,4 +227,37 @@ pub fn print(args: &[String]) -> String {
             _ => "err:other".to_string(),
         },
     }
+}
+
+// roundtrip <text>: print, re-parse, compare, print again (property C04)
+//   `ok rest2=<enc> same=<0|1> eq=<0|1> fix=<0|1>` | `err:<class>` (first parse) | `reparse-err:<class> <enc s1>`
+pub fn roundtrip(args: &[String]) -> String {
+    let text = args.first().cloned().unwrap_or_default();
+    let (_, tree) = match xml_parser::document(&text) {
+        Ok(v) => v,
+        Err(_) => return "err:syntax".to_string(),
+    };
+    let doc1 = match info::XmlDocument::new(&tree) {
+        Ok(d) => d,
+        Err(err) => return format!("err:{}", info_err_class(&err)),
+    };
+    let s1 = format!("{}", doc1.borrow());
+    let (rest2, tree2) = match xml_parser::document(&s1) {
+        Ok(v) => v,
+        Err(_) => return format!("reparse-err:syntax {}", e(&s1)),
+    };
+    let doc2 = match info::XmlDocument::new(&tree2) {
+        Ok(d) => d,
+        Err(err) => return format!("reparse-err:{} {}", info_err_class(&err), e(&s1)),
+    };
+    let s2 = format!("{}", doc2.borrow());
+    let same = dump_doc(&doc1) == dump_doc(&doc2);
+    let eq = *doc1.borrow() == *doc2.borrow();
+    format!(
+        "ok rest2={} same={} eq={} fix={}",
+        e(rest2),
+        same as u8,
+        eq as u8,
+        (s1 == s2) as u8
+    )
 }
